@@ -179,10 +179,27 @@ def r_range(ctx, model):
     bad = []
     for top, must_raise in ((60, False), (99, False), (101, True), (110, True), (119, True), (121, True), (500, True)):
         want = ArrV(0, (4,), cells={(0,): I(0), (1,): I(top) / 3, (2,): 2 * I(top) / 3, (3,): I(top)})
-        obj = Obj(QHACALC, {"p_tv_gpa": table, "desired_pressures_gpa": want, "settings": DictV({"DELTA_P": I(1), "high_verbosity": False, "qha_output": "out"})})
+        # what is written is every pressure of the grid; the sampled grid (every 2nd pressure here, not the top one) is coarser
+        sample = ArrV(0, (2,), cells={(0,): I(0), (1,): 2 * I(top) / 3})
+        obj = Obj(QHACALC, {"p_tv_gpa": table, "desired_pressures_gpa": want, "pressure_sample_array": sample, "desired_pressures": want,
+                            "settings": DictV({"DELTA_P": I(1), "DELTA_P_SAMPLE": I(2), "high_verbosity": False, "qha_output": "out"})})
         ev = Ev(model, {}, {}, ctx=ctx)
+        # the check as the loader calls it: arguments of the call site are evaluated on the scenario calculator
+        sites = [c for c in ast.walk(f) if isinstance(c, ast.Call) and isinstance(c.func, ast.Attribute) and c.func.attr == "desired_pressure_status"]
+        if len(sites) != 1 or not isinstance(sites[0].func.value, ast.Name):
+            raise AnalysisError("_load_qha_calculator: expected exactly one call <calculator>.desired_pressure_status(...)")
+        amod = model.mods["cij.core.qha_adapter"]
+        env = {sites[0].func.value.id: obj}
+        # locals of the loader that the arguments may name: bound from the scenario calculator by the loader's own assignments
+        for st_ in f.body:
+            if isinstance(st_, ast.Assign) and len(st_.targets) == 1 and isinstance(st_.targets[0], ast.Name) and isinstance(st_.value, ast.Attribute) \
+                    and isinstance(st_.value.value, ast.Name) and st_.value.value.id == sites[0].func.value.id and st_.value.attr in obj.attrs \
+                    and st_.lineno < sites[0].lineno:
+                env[st_.targets[0].id] = obj.attrs[st_.value.attr]
         try:
-            ev.call_def(d, model.mods["cij.core.qha_adapter"], dref, [obj], {})
+            cargs = [ev.eval(a_, env, amod) for a_ in sites[0].args]
+            ckw = {kw_.arg: ev.eval(kw_.value, env, amod) for kw_ in sites[0].keywords}
+            ev.call_def(d, amod, dref, [obj] + cargs, ckw)
             outcome = None
         except RaisedV as e:
             outcome = e.exc_name
